@@ -9,10 +9,10 @@ test inside `groupby('node_id').first()` (first NON-NULL cell per column) - henc
 
 The model follows the code step by step, including the order of the checks, the groups that are created
 before a check fails and the roll-back (`del group[name]`) in the `except` branches.  It models the code WITH
-the repairs of `tools/fixes/C20-*.diff`: mixed element types are written; element nodal values are written
-grouped by element; the importer reads set names written by the exporter and two-column coordinates;
-the dimension of a geometry is decided from its own frame (no `_dimension` carried from call to call);
-identifiers that do not fit the 32 bit integers of the format are refused.
+the repairs committed in /repo: mixed element types are written (5bedc75); element nodal values are written
+grouped by element (c3a1079); the importer reads set names written by the exporter (810bb8c) and two-column
+coordinates (6fd00f9); the dimension of a geometry is decided from its own frame, no `_dimension` carried from call
+to call (ba72c38); identifiers that do not fit the 32 bit integers of the format are refused (0e66e4b).
 -/
 namespace PylifeVerif.Vmap
 
